@@ -564,6 +564,19 @@ def r4_relay(ctx, f, rep):
         rep.check(RELAY[k][0] in sent, 'C12-R4', hd.nname, 'a %s handled while Connected is always answered with %s' % (k, RELAY[k][0]),
                   construct='always-replies:%s' % k, facts={'sent': sent})
     rep.floor('C12-R4', nconv, 4, 'handle_data paths that end in one of the four reply arms')
+    for k in RELAY:
+        rep.floor('C12-R4', len(seen.get(k, [])), 1, 'reply occurrences for ' + k)
+    for k in NAMED:
+        rep.check(bool(rejected.get(k)) and all(rejected[k]), 'C12-R4', hd.nname, '%s naming ourselves is rejected with '
+                  'IndirectForOurselves and nothing is relayed' % k, construct='reject-self:' + k)
+    extra = set(seen) - set(RELAY)
+    rep.check(not extra, 'C12-R4', hd.nname, 'no other kind triggers a reply', construct='no-other-replies',
+              facts={'extra': sorted(extra)})
+    r4b_tail_does_not_veto(ctx, f, rep, 'C12-R4')
+
+
+def r4b_tail_does_not_veto(ctx, f, rep, rule='C12-R4'):
+    hd = f.fn('Foca::handle_data')
     # ... and nothing that happens to the rest of the datagram may get in the way: once the custom-broadcast tail has been
     # handed to handle_custom_broadcasts, a path may leave handle_data without having dispatched on the kind only because the
     # instance is not Connected - never because that tail was rejected (its error is reported after the reply)
@@ -580,22 +593,14 @@ def r4_relay(ctx, f, rep):
         for c in p.events[hc[0]:]:
             if c['kind'] == 'cond' and q.conn_state_test(f, c, 'Connected') is not None:
                 conn = q.conn_state_test(f, c, 'Connected')
-        undecided = [k for k in RELAY if k in ks and len(ks) > 1]
+        undecided = [k for k in list(RELAY) + ['TurnUndead'] if k in ks and len(ks) > 1]
         if not undecided:
             continue
         nleave += 1
-        rep.check(conn is False, 'C12-R4', hd.nname, 'after the custom-broadcast tail was handled, handle_data returns without '
+        rep.check(conn is False, rule, hd.nname, 'after the custom-broadcast tail was handled, handle_data returns without '
                   'dispatching on the kind only when the instance is not Connected', construct='tail-does-not-veto-reply',
                   facts={'kinds_still_possible': sorted(ks)})
-    rep.floor('C12-R4', nleave, 1, 'handle_data paths that return after the custom-broadcast tail without dispatching')
-    for k in RELAY:
-        rep.floor('C12-R4', len(seen.get(k, [])), 1, 'reply occurrences for ' + k)
-    for k in NAMED:
-        rep.check(bool(rejected.get(k)) and all(rejected[k]), 'C12-R4', hd.nname, '%s naming ourselves is rejected with '
-                  'IndirectForOurselves and nothing is relayed' % k, construct='reject-self:' + k)
-    extra = set(seen) - set(RELAY)
-    rep.check(not extra, 'C12-R4', hd.nname, 'no other kind triggers a reply', construct='no-other-replies',
-              facts={'extra': sorted(extra)})
+    rep.floor(rule, nleave, 1, 'handle_data paths that return after the custom-broadcast tail without dispatching')
 
 
 def r5_suspect_once(ctx, f, rep):
